@@ -1,64 +1,77 @@
-import TrucModel.Proofs.BuilderProps
-import TrucModel.Model.Replay
+import TrucModel.Proofs.ReplaySource
+import TrucModel.Proofs.ReplayKeys
 import TrucModel.Props.Examples
 /-
   C20 — Replaying a definition into another builder preserves variants and data.
-  Full statement (goal): for every source definition built by a valid history and every target
-  strategy, `replay` succeeds, maps source variant k to target variant k, paired variants carry the
-  same multiset of (name, type, size, align, uninit), and one injective id map relates them.
-  Proved so far (`_partial`): the variant map has exactly one entry per source variant, in order,
-  whenever the replay succeeds; everything else is carried by channel L (`replay` requests with the
-  independent C20 oracle on the implementation's output).
+
+  `C20_replay`: for every source definition built by a valid history and every target strategy
+  (the four native ones and the two generic ones), `convert_record_definition`
+    * succeeds (no error from the target builder, no indexing panic, no strategy panic),
+    * creates exactly one target variant per source variant and returns the map k ↦ k,
+    * leaves the target buildable,
+    * relates source and target data by a single injective id map `F r.idMap`: target variant k is a
+      permutation of the image of source variant k under that one map, for every k — so a source datum
+      corresponds to the same target datum in all the variants it spans,
+    * and corresponding data have the same name, type, size, alignment and uninit flag.
+  `C20_same_type_information` restates the pairing as equality of the multisets of type information.
+  `C20_map_keys_any_source` (older, weaker, but for *any* source): one key per source variant, in order.
+  The premise `SrcChain` (ids never reused, consecutive variants differ, names unique per variant) is
+  proved for every builder output in `Proofs/ReplaySource.lean`.
 -/
 namespace Truc
 
-theorem replayRemovals_vMap : ∀ (l : List Nat) (r r' : RState), replayRemovals r l = .ok r' → r'.vMap = r.vMap := by
-  intro l
-  induction l with
-  | nil => intro r r' h; simp only [replayRemovals, Outcome.ok.injEq] at h; rw [← h]
-  | cons d rest ih =>
-    intro r r' h
-    unfold replayRemovals at h
-    split at h <;> try (simp at h; done)
-    split at h <;> try (simp at h; done)
-    exact (ih _ _ h).trans rfl
+/-- name, type, size, alignment, uninit flag -/
+def shapeOf (i : Info) : String × String × Nat × Nat × Bool := (i.name, i.ty, i.size, i.align, i.uninit)
 
-theorem replayAdditions_vMap (src : Defs) : ∀ (l : List Nat) (r r' : RState), replayAdditions src r l = .ok r' → r'.vMap = r.vMap := by
-  intro l
-  induction l with
-  | nil => intro r r' h; simp only [replayAdditions, Outcome.ok.injEq] at h; rw [← h]
-  | cons d rest ih =>
-    intro r r' h
-    unfold replayAdditions at h
-    split at h <;> try (simp at h; done)
-    split at h <;> try (simp at h; done)
-    exact (ih _ _ h).trans rfl
+theorem C20_replay (reqs : List Req) (hv : ∀ r ∈ reqs, r.valid) (src : Definition)
+    (hb : (run reqs).build = some src) (st : Strategy) :
+    ∃ r, replay src st = .ok r ∧
+      r.tgt.variants.length = src.variants.length ∧
+      r.vMap = (List.range src.variants.length).map (fun k => (k, k)) ∧
+      r.tgt.canBuild = true ∧
+      (∀ (k : Nat) (t v : List Nat), r.tgt.variants[k]? = some t → src.variants[k]? = some v →
+        t.Perm (v.map (F r.idMap))) ∧
+      (∀ d ∈ src.variants.flatten, ∃ d', r.idMap.lookup d = some d' ∧ d' < r.tgt.defs.length ∧
+        sameShape (info r.tgt.defs d') (info src.defs d)) ∧
+      (∀ d1 ∈ src.variants.flatten, ∀ d2 ∈ src.variants.flatten, F r.idMap d1 = F r.idMap d2 → d1 = d2) := by
+  obtain ⟨r, hr, hinv⟩ := replay_ok src st (builder_srcChain reqs hv src hb)
+  have hlk : ∀ d ∈ src.variants.flatten, ∃ d', r.idMap.lookup d = some d' ∧ d' < r.tgt.defs.length ∧
+      sameShape (info r.tgt.defs d') (info src.defs d) := by
+    intro d hd
+    have := hinv.total d hd
+    rw [Option.isSome_iff_exists] at this
+    obtain ⟨d', hd'⟩ := this
+    exact ⟨d', hd', (hinv.keys d d' hd').2⟩
+  refine ⟨r, hr, hinv.len, hinv.vmap, ?_, hinv.vars, hlk, ?_⟩
+  · simp [BState.canBuild, hinv.pendA, hinv.pendR]
+  · intro d1 h1 d2 h2 e
+    obtain ⟨a, ha, _⟩ := hlk d1 h1
+    obtain ⟨b, hb', _⟩ := hlk d2 h2
+    rw [F_of_lookup ha, F_of_lookup hb'] at e
+    subst e
+    exact hinv.inj d1 d2 a ha hb'
 
-theorem replayVariants_keys (src : Defs) (st : Strategy) :
-    ∀ (vs : List (List Nat)) (r : RState) (prev : Option (List Nat)) (k : Nat) (r' : RState),
-      replayVariants src st r prev vs k = .ok r' →
-      r'.vMap.map (·.1) = r.vMap.map (·.1) ++ List.range' k vs.length := by
-  intro vs
-  induction vs with
-  | nil =>
-    intro r prev k r' h
-    simp only [replayVariants, Outcome.ok.injEq] at h
-    subst h; simp
-  | cons v vs ih =>
-    intro r prev k r' h
-    unfold replayVariants at h
-    simp only at h
-    split at h <;> try (simp at h; done)
-    split at h <;> try (simp at h; done)
-    split at h <;> try (simp at h; done)
-    rename_i _ ra hra _ rb hrb _ t vid _
-    have := ih _ _ _ _ h
-    rw [this]
-    simp only [List.map_append, List.map_cons, List.map_nil, List.length_cons, List.range'_succ, List.append_assoc,
-      List.singleton_append]
-    rw [replayAdditions_vMap _ _ _ _ hrb, replayRemovals_vMap _ _ _ hra]
+/-- each pair of variants holds data with the same names and type information -/
+theorem C20_same_type_information (reqs : List Req) (hv : ∀ r ∈ reqs, r.valid) (src : Definition)
+    (hb : (run reqs).build = some src) (st : Strategy) :
+    ∃ r, replay src st = .ok r ∧
+      ∀ (k : Nat) (t v : List Nat), r.tgt.variants[k]? = some t → src.variants[k]? = some v →
+        (t.map (fun d => shapeOf (info r.tgt.defs d))).Perm (v.map (fun d => shapeOf (info src.defs d))) := by
+  obtain ⟨r, hr, _, _, _, hvars, hlk, _⟩ := C20_replay reqs hv src hb st
+  refine ⟨r, hr, ?_⟩
+  intro k t v ht hv'
+  have hp := (hvars k t v ht hv').map (fun d => shapeOf (info r.tgt.defs d))
+  refine hp.trans ?_
+  rw [List.map_map]
+  apply List.Perm.of_eq
+  apply List.map_congr_left
+  intro d hd
+  obtain ⟨d', hd', _, hs⟩ := hlk d (List.mem_flatten_of_mem (List.mem_of_getElem? hv') hd)
+  simp only [Function.comp, F_of_lookup hd', shapeOf]
+  obtain ⟨h1, h2, h3, h4, h5⟩ := hs
+  rw [h1, h2, h3, h4, h5]
 
-theorem C20_one_entry_per_variant_partial (src : Definition) (st : Strategy) (r : RState)
+theorem C20_map_keys_any_source (src : Definition) (st : Strategy) (r : RState)
     (h : replay src st = .ok r) : r.vMap.map (·.1) = List.range src.variants.length := by
   unfold replay at h
   have := replayVariants_keys src.defs st src.variants {} none 0 r h
@@ -68,5 +81,13 @@ theorem C20_one_entry_per_variant_partial (src : Definition) (st : Strategy) (r 
 example : (match (run Ex.h1).build with
     | some d => (match replay d .basic with | .ok r => r.vMap | _ => [])
     | none => []) = [(0, 0), (1, 1), (2, 2)] := by decide +kernel
+
+/-- non-vacuity of the premises: the example history is valid and builds -/
+example : (∀ r ∈ Ex.h1, r.valid) ∧ ((run Ex.h1).build).isSome = true := by
+  constructor
+  · intro r hr
+    simp only [Ex.h1, List.mem_cons, List.mem_nil_iff, or_false] at hr
+    rcases hr with rfl | rfl | rfl | rfl | rfl | rfl | rfl | rfl | rfl | rfl <;> simp [Req.valid, Ex.I, Strategy.isNative]
+  · decide +kernel
 
 end Truc
